@@ -73,6 +73,10 @@ func ReplayTrace(e *engine.Engine, ops []engine.TraceStep) *engine.Failure {
 			if f := e.Exec(op.Cmd...); f != nil {
 				return f
 			}
+		case "tick":
+			if f := e.Tick(); f != nil {
+				return f
+			}
 		case "advance":
 			e.Advance(op.Ms)
 		case "select":
